@@ -1409,6 +1409,34 @@ func c11r15(c *Ctx, r *Report) {
 			}
 		}
 		r.check(reset, fmt.Sprintf("%s:%s is reset on reload", relName(run), al.Comment), al.Pos(), restart, "restart stores it", fmt.Sprintf("the item builders keep %s across records but the restart closure does not reset it: the reloaded input starts with the old input's state", al.Comment))
+		// ... on EVERY path to the start of the new reader (round-9 mutant C15b9 moved the header reset under
+		// `if !useSnapshot`: after reload-sync the new input's header line became a list item)
+		if reset {
+			isStore := func(in ssa.Instruction) bool {
+				st, ok := in.(*ssa.Store)
+				if !ok {
+					return false
+				}
+				switch a := st.Addr.(type) {
+				case *ssa.FreeVar:
+					return freeVarAlloc(restart, a) == al
+				case *ssa.Alloc:
+					return a == al
+				}
+				return false
+			}
+			isStart := func(in ssa.Instruction) bool {
+				ci, ok := in.(ssa.CallInstruction)
+				return ok && callIs(ci.Common(), rr)
+			}
+			start := restart.Blocks[0].Instrs[0]
+			var hit ssa.Instruction
+			if !isStore(start) {
+				hit = pathAvoiding(start, isStart, isStore, nil)
+			}
+			r.check(hit == nil, fmt.Sprintf("%s:%s is reset on every path of the reload", relName(run), al.Comment), al.Pos(), restart,
+				"no path starts the new reader without the reset", fmt.Sprintf("%s is reset on some paths of the restart closure only (e.g. not for reload-sync)", al.Comment))
+		}
 	}
 	r.floor("variables the item builders keep across records", len(als), 3)
 }
@@ -5538,6 +5566,41 @@ func c17r17(c *Ctx, r *Report) {
 			})
 			r.check(read, fmt.Sprintf("%s:word parser call #%d checks where the parser stopped", relName(fn), n), call.Pos(), fn,
 				"Parser.Position is read after Parse", "the words are used without looking at Parser.Position: everything after an unquoted ; & | < > is dropped silently")
+			// the library reports "everything was parsed" as -1; position 0 is a stop like any other
+			// (round-9 mutant C17d9 tested `Position > 0`: a value starting with ; & | < > was dropped silently)
+			eachInstr(fn, func(i2 ssa.Instruction) {
+				b, ok := i2.(*ssa.BinOp)
+				if !ok {
+					return
+				}
+				x, op, k, ok := cmpInt(b)
+				if !ok {
+					return
+				}
+				if fld, _ := loadedField(x); fld == nil || fld.Name() != "Position" {
+					return
+				}
+				switch op {
+				case token.GEQ, token.GTR, token.NEQ, token.EQL, token.LSS, token.LEQ:
+				default:
+					return
+				}
+				admits0 := false // does the "stopped" side of the test contain position 0, and the other side -1?
+				switch op {
+				case token.GEQ:
+					admits0 = k == 0
+				case token.GTR:
+					admits0 = k == -1
+				case token.NEQ, token.EQL:
+					admits0 = k == -1
+				case token.LSS:
+					admits0 = k == 0
+				case token.LEQ:
+					admits0 = k == -1
+				}
+				r.check(admits0, fmt.Sprintf("%s:the stop test of word parser call #%d separates -1 from 0 and up", relName(fn), n), b.Pos(), fn,
+					"-1 means `parsed everything`, every other position is a stop", "the test of Parser.Position does not treat position 0 as a stop: a string that begins with an unquoted metacharacter is dropped silently")
+			})
 		})
 	}
 	r.floor("calls of the shell-words parser", n, 1)
